@@ -35,7 +35,7 @@ Theorem src_sandpile_call_agrees :
   = sandpile_call rows cols closed adds n c t.
 Proof.
   intros rows cols closed adds n c t.
-  cbv beta zeta delta [src_sandpile_call sandpile_call scheduled].
+  cbv beta zeta delta [src_sandpile_call sandpile_call scheduled]. autounfold with src_helpers. cbv beta zeta.
   rewrite src_sandpile_is_in_boundary_agrees.
   match goal with |- context [existsb ?F (map zaddition adds)] =>
     rewrite (scan_agrees F (fun a : addition => (t =? snd a)%nat && cell_eqb c (fst a)))
